@@ -3,9 +3,19 @@ package eng
 import "golang.org/x/tools/go/ssa"
 
 // AssumeNil seeds the environment with the fact that v is (not) nil at the start of the
-// search. Unlike Assume the fact is an ordinary path fact: it is dropped when v is redefined.
+// search. Unlike Assume the fact is an ordinary path fact: it is dropped when v is redefined
+// (when the instruction computing v is executed on the explored path).
 func (e *PSEnv) AssumeNil(v ssa.Value, isNil bool) {
 	e.nilness[e.Resolve(v)] = isNil
+}
+
+// AssumeNilAlways fixes the nil-ness of v for the whole search, wherever the instruction
+// computing it is executed (specialisation of the scenario, like Assume for conditions).
+func (e *PSEnv) AssumeNilAlways(v ssa.Value, isNil bool) {
+	if e.stickyNil == nil {
+		e.stickyNil = map[ssa.Value]bool{}
+	}
+	e.stickyNil[v] = isNil
 }
 
 // EdgeStart returns the location at which the target block of edge k of fn starts.
